@@ -2,8 +2,10 @@
 C09 — Broker outbound QoS>0 window is bounded, uniquely numbered, resumes on ack.
 Theorems about the router model (Model/Router/Step.lean); the model is tied to
 rumqttd/src/router/{iobufs,routing}.rs by the `vh router` correspondence.
+`Reachable cfg s` (Proofs/Lemmas/Router/Reach.lean): `s` is the state after some error-free list
+of ops — connect / push / event / consume / drain, each under an arbitrary oracle — from `init cfg`.
 -/
-import Proofs.Lemmas.Router.Outgoing
+import Proofs.Lemmas.Router.Rp1_Ack
 import Generated.Consts
 namespace C09
 open Router
@@ -39,6 +41,64 @@ theorem register_ack_fifo (o : Outgoing) (pkid : Nat) :
     ((o.registerAck pkid).2 = true ↔ ∃ fi c rest, o.inflight = (pkid, fi, c) :: rest) :=
   registerAck_spec o pkid
 
+/-- a read of the commit log for `n` slots returns at most `n` entries — for any log and cursor —
+    so a sweep (retained replay `take slots` + log read with the remaining slots) never produces
+    more QoS>0 publishes than there are free slots -/
+theorem readv_returns_at_most {α : Type} (l : CLog.Log α) (cur : CLog.Cursor) (n : Nat) :
+    (l.readv cur n).1.length ≤ n := CLog.Log.readv_length l cur n
+
+/-- the window is bounded: in every reachable state every connection has at most `MAX_INFLIGHT`
+    (= 100) unacknowledged QoS>0 publishes outstanding -/
+theorem window_le_max_always {cfg : Config} {s : RState} (hr : Reachable cfg s) {id : Nat} {c : Conn}
+    (hc : getConn s id = some c) : c.out.inflight.length ≤ Generated.MAX_INFLIGHT :=
+  ((Inv1.reachable hr).out id c hc).1
+
+/-- the window is uniquely numbered: in every reachable state the packet ids of a connection's
+    outstanding publishes are non-zero, at most `MAX_INFLIGHT`, and pairwise distinct -/
+theorem pkids_nonzero_distinct_always {cfg : Config} {s : RState} (hr : Reachable cfg s) {id : Nat} {c : Conn}
+    (hc : getConn s id = some c) :
+    (∀ e ∈ c.out.inflight, 0 < e.1 ∧ e.1 ≤ Generated.MAX_INFLIGHT) ∧ (c.out.inflight.map (·.1)).Nodup :=
+  ((Inv1.reachable hr).out id c hc).pkids
+
+/-- why they are distinct: strict FIFO acknowledgement makes the window a cyclic interval — its
+    `n` ids are the `n` consecutive ids (in `1..=100`, wrapping from 100 to 1) ending at the id
+    assigned last -/
+theorem window_is_cyclic_interval {cfg : Config} {s : RState} (hr : Reachable cfg s) {id : Nat} {c : Conn}
+    (hc : getConn s id = some c) (k : Nat) (hk : k < c.out.inflight.length) :
+    c.out.lastPkid < 100 ∧
+    (c.out.inflight[k]).1 = (c.out.lastPkid + 100 - c.out.inflight.length + k) % 100 + 1 :=
+  ⟨((Inv1.reachable hr).out id c hc).2.1, ((Inv1.reachable hr).out id c hc).2.2 k _ (List.getElem?_eq_getElem hk)⟩
+
+/-- an unsolicited / out-of-order acknowledgement (PUBACK or PUBREC whose packet id is not the head
+    of the window) closes that connection and only that one: the connection is removed, and every
+    other connection stays, unchanged except possibly for its tracker -/
+theorem unsolicited_ack_closes_only_that_connection {s s' : RState} {id : Nat} {c : Conn} {pkid : Nat}
+    {pkt : Packet} (hc : getConn s id = some c) (hib : (getLink s c.link).ibuf = [pkt])
+    (hpkt : pkt = .puback pkid ∨ pkt = .pubrec pkid)
+    (hhead : ∀ fi cur rest, c.out.inflight ≠ (pkid, fi, cur) :: rest)
+    (h : events s id .deviceData = .ok s') :
+    getConn s' id = none ∧
+    ∀ j d, j ≠ id → getConn s j = some d → ∃ t, getConn s' j = some { d with tracker := t } :=
+  ⟨(bad_ack_closes hc hib hpkt hhead h).1, fun _ _ hj hd => events_frame h hj hd⟩
+
 example : (numberForwards {} 0 [(default, none), (default, none)] []).1.inflight.map (·.1) = [1, 2] := by decide
+
+/-- packet ids wrap from 100 to 1 -/
+example : (numberForwards { lastPkid := 99 } 0 [(default, none), (default, none)] []).1.inflight.map (·.1) = [100, 1] := by
+  decide
+
+/-- non-vacuity: a full window (100 entries) satisfying the window invariant exists, and a further
+    QoS>0 sweep is refused (`free_slots = 0`) -/
+example : let o := (numberForwards {} 0 (List.replicate 100 (default, none)) []).1
+    OutInv o ∧ o.inflight.length = 100 ∧ o.freeSlots = 0 := by
+  have hl := (numberForwards_lengths 0 (List.replicate 100 (default, none)) {} []).1
+  simp only [List.length_replicate] at hl
+  refine ⟨OutInv.numberForwards 0 _ _ _ (OutInv.empty []) (by simp [MAX_INFLIGHT_eq]), by simpa using hl, ?_⟩
+  unfold Outgoing.freeSlots
+  rw [hl]; rfl
+
+/-- non-vacuity of `Reachable`: a state with a registered connection -/
+example : ∃ s, Reachable ⟨2, 1024, 2, 10, .roundRobin⟩ s ∧ (getConn s 0).isSome = true :=
+  ⟨_, ⟨[(.connect { link := 0, clientId := "a", clean := true, dynamicFilters := false, aliasMax := 0, will := none }, [])], rfl⟩, rfl⟩
 
 end C09
